@@ -31,6 +31,11 @@ pub fn is_sibling<T: EbmlSpecification<T> + EbmlTag<T> + Clone>(current_id: u64,
 /// There are a couple of other cases where an Unknown sized tag can end, but they rely on knowing document position and tag sizes.  More details can be found in the [EBML RFC](https://www.rfc-editor.org/rfc/rfc8794.html#name-unknown-data-size).
 /// 
 pub fn is_ended_by<T: EbmlSpecification<T> + EbmlTag<T> + Clone>(current_id: u64, test_id: u64) -> bool {
+    // Global elements may appear inside any master, so they never end one
+    if <T>::get_path_by_id(test_id).iter().any(|p| matches!(p, PathPart::Global(_))) {
+        return false;
+    }
+
     is_parent::<T>(current_id, test_id) || // parent
     is_sibling::<T>(current_id, test_id) || // sibling
     ( // Root element
